@@ -2,6 +2,7 @@ package config
 
 import (
 	"fmt"
+	"net"
 	"reflect"
 )
 
@@ -26,6 +27,21 @@ func (c *Config) verify() error {
 		}
 	}
 
+	return nil
+}
+
+// An address the servers can listen on has the form host:port with a port number or service name.
+func verifyListenAddress(name string, address string) error {
+	if address == "" {
+		return fmt.Errorf("%s cannot be empty", name)
+	}
+	_, port, err := net.SplitHostPort(address)
+	if err == nil {
+		_, err = net.LookupPort("tcp", port)
+	}
+	if err != nil {
+		return fmt.Errorf("%s is not a valid listen address: %v", name, err)
+	}
 	return nil
 }
 
